@@ -474,7 +474,7 @@ def cells(tier):
                     for errpos in (["last"] if err == "absent" else ["first", "afterstate", "last"]):
                         yield ("mgmt", dict(step=step, err=err, state=state, subset=subset, errpos=errpos, style="ip" if step.startswith("ip") else "ble"))
                         if step.startswith("ip") and (tier == "thorough" or (errpos == "last" and not subset and state in ("expected", "absent"))):
-                            if "verify" in step and err == "02" and errpos == "last":  # (only an authentication error ends the retries: C10)
+                            if "verify" in step and err == "02" and errpos == "last" and state in ("expected", "absent"):  # (only an authentication error ends the retries: C10; a reply that ALSO carries a wrong step number may fail as invalid, and then the next address is tried)
                                 yield ("mgmt", dict(step=step, err=err, state=state, subset=subset, errpos=errpos, style="ip", two_hosts=True))
                             for http in (400, 429, 470) if err != "absent" else ():
                                 yield ("mgmt", dict(step=step, err=err, state=state, subset=subset, errpos=errpos, style="ip", http=http))
